@@ -365,6 +365,13 @@ func checkChain(in ChainInput) *fail {
 			if fmt.Sprint(t.Pattern) != fmt.Sprint(wantPat) {
 				problems = append(problems, fmt.Sprintf("patterns %q want %q", t.Pattern, wantPat))
 			}
+			// the type's Root - "the root of this type that is the same", which the command's types
+			// and tree formats print in the type's place - carries the same chain
+			if r := t.Root; r == nil {
+				problems = append(problems, "type without a root")
+			} else if r.Kind != t.Kind || r.Units != t.Units || r.HasDefault != t.HasDefault || r.Default != t.Default || fmt.Sprint(r.Pattern) != fmt.Sprint(t.Pattern) {
+				problems = append(problems, fmt.Sprintf("the type's Root is not the same type: root %s, type %s", dump.Type(r, 0), dump.Type(t, 0)))
+			}
 			// DefaultValues: the leaf's own default wins, else the type's, unless mandatory / min-elements
 			var wantDV []string
 			switch {
